@@ -131,12 +131,18 @@ fn round(mode: u8, nkeys: u64, writers: usize, readers: usize, writer_ops: u64, 
             let s1: Vec<(u64, char)> = (0..n).map(snap).collect();
             std::thread::sleep(std::time::Duration::from_secs(1));
             let s2: Vec<(u64, char)> = (0..n).map(snap).collect();
-            let stuck: Vec<usize> = (0..writers).filter(|&w| !done[w].load(Ordering::SeqCst) && s1[w].0 == s2[w].0 && s1[w].1 == 'S' && s2[w].1 == 'S').collect();
-            let readers_alive = (writers..n).any(|i| s2[i].0 > s1[i].0);
+            std::thread::sleep(std::time::Duration::from_secs(1));
+            let s3: Vec<(u64, char)> = (0..n).map(snap).collect();
+            let stuck: Vec<usize> = (0..writers)
+                .filter(|&w| !done[w].load(Ordering::SeqCst) && s1[w].0 == s3[w].0 && s1[w].1 == 'S' && s2[w].1 == 'S' && s3[w].1 == 'S')
+                .collect();
+            // every reader completed lookups in both intervals, i.e. none of them is sitting
+            // (descheduled) inside the read lock that the sleeping writer could be waiting for
+            let readers_alive = readers > 0 && (writers..n).all(|i| s2[i].0 >= s1[i].0 + 3 && s3[i].0 >= s2[i].0 + 3);
             if !stuck.is_empty() && readers_alive {
                 verdict = Ok(Some(format!(
-                    "writer thread(s) {:?} made no progress for 7 s and are asleep (state S, {} of {} calls done) while readers keep completing lookups",
-                    stuck, s2[stuck[0]].0, writer_ops
+                    "writer thread(s) {:?} made no progress for 8 s and are asleep (state S in three samples, {} of {} calls done) while every reader keeps completing lookups",
+                    stuck, s3[stuck[0]].0, writer_ops
                 )));
                 break;
             }
